@@ -45,4 +45,32 @@ CHECKS['C08'] = {
             'handed (or being handed) to a worker that died without answering it; return_results=False returns None.',
     'note': 'Two open known findings (refusing enqueue_fn) are matched by symptom+trigger; same trusted base as C07.',
 }
+ENGINES.append({'name': 'GRAPH', 'path': 'harness/graphs.py', 'serves_properties': ['C13', 'C14', 'C15'],
+                'kind_free_text': 'class menu (opt-in classes with plain twins), JSON graph specs with back references and cycle links, canonicaliser, '
+                                  '__getstate__/__setstate__ call log; differential oracle against the standard pickle module'})
+CHECKS['C13'] = {
+    'engine': 'GRAPH', 'level': 'exploration', 'design_ref': 'DESIGN.md 3.4, 4 (C13)',
+    'technique': 'property-based differential testing against the standard pickle module over generated object graphs; enumerated class-definition programs for the inconsistency rule',
+    'text': 'Generated graphs (plain classes, stdlib values, sharing, cycles) are round-tripped through remote_pickle and through pickle and compared by a '
+            'canonical form that captures sharing; opt-in graphs are checked with remote=False; pickle/copy/deepcopy/ForkingPickler are checked to never see '
+            'the flag after remote pickling; all 1-3 level inheritance chains over {no/plain/remote/**kwargs __getstate__, __reduce__} are enumerated '
+            'against a reference consistency rule.',
+    'note': 'Canonical form trusts repr() for opaque stdlib values; class menu is fixed (11 opt-in, 9 plain classes).',
+}
+CHECKS['C14'] = {
+    'engine': 'GRAPH', 'level': 'exploration', 'design_ref': 'DESIGN.md 3.4, 4 (C14)',
+    'technique': 'property-based testing with a twin-class reference model evaluated by the standard pickle module; call-log invariant (exactly one __getstate__(remote=True))',
+    'text': 'Graphs with 0-10 opt-in instances from a generated grammar plus an enumerated shape grammar (siblings 1-3, containers, chains, shared, cycles) are dumped '
+            'and loaded; the oracle is the call log (one remote __getstate__ per serialised opt-in instance) and equality of canonical shape with the standard '
+            'round trip of a twin graph whose plain classes return the remote state.',
+    'note': 'Two open findings (sibling/shared/cyclic direct children; None remote state) are matched by structural trigger predicates computed from the input graph.',
+}
+CHECKS['C15'] = {
+    'engine': 'GRAPH', 'level': 'exploration', 'design_ref': 'DESIGN.md 3.4, 4 (C15)',
+    'technique': 'property-based testing against reference patch semantics (twin graph + standard pickle), metamorphic fresh-thread comparison, barrier-forced concurrent loads',
+    'text': 'Patch dictionaries derived from the generated graph are applied by remote_pickle.loads and by a reference model; every node of the result must '
+            'canonicalise as the reference says (so no other object is touched); the same call after a history of plain/patched/truncated/raising loads must equal '
+            'the fresh-thread result; 2-4 threads are held inside their loads simultaneously with distinct patch values.',
+    'note': 'Patches addressing non-dict states are excluded (undefined by the property); three open findings matched by structural triggers.',
+}
 NOT_APPLICABLE = {}
